@@ -7,7 +7,7 @@
 From Coq Require Import ZArith List String Permutation.
 Import ListNotations.
 From FGV Require Import Base.Util Base.Bond Base.NX Base.NXMulti Model.Proxy Model.ProxyGen
-  Spec.ProxySpec Spec.ProxyGenSpec Spec.ProxyGenCheck Spec.ProxyRefCheck Spec.ProxyBondSpec Gen.ProxyDA
+  Spec.ProxySpec Spec.ProxyGenSpec Spec.ProxyGenCheck Spec.ProxyRefCheck Spec.ProxyParserCheck Spec.ProxyBondSpec Gen.ProxyDA
   Proofs.ProxyGenProofs Proofs.ProxyGenMain Proofs.ProxyGenCheckProofs Proofs.ProxyDAProofs
   Proofs.ProxyBondsTop Proofs.ProxyRefCheckProofs Proofs.ProxyDASigs Proofs.NXMultiCopyFacts Proofs.ProxyGenTop.
 Open Scope string_scope.
